@@ -152,7 +152,8 @@ def layouts(pat, old, new, fmt, tier):
     subsets = [s for s in projgen.pattern_subsets(pat, 2) if pt.compatible(s, old, new)]
     if fmt == "setup.cfg":
         subsets = [s for s in subsets if all(pt.ini_expressible(fp.raw) for fp in s)]
-    subsets = subsets if tier == "thorough" else subsets[:5] + [s for s in subsets if len(s) == 2][:4]
+    partial = [s for s in subsets if len(s) == 1 and s[0].pid in ("majmin", "maj", "copyright")]
+    subsets = subsets if tier == "thorough" else subsets[:5] + [s for s in subsets if len(s) == 2][:4] + [s for s in partial if s not in subsets[:5]]
     for s in subsets:
         ids = "+".join(fp.pid for fp in s)
         for regime in ("LF", "CRLF", "CR"):
@@ -162,6 +163,11 @@ def layouts(pat, old, new, fmt, tier):
         if len(s) == 2 and not any(fp.anchor_l or fp.anchor_r for fp in s):
             f = projgen.build_file("a.txt", s, ("one-line", (1, 0)), "ascii", "CRLF", False)
             yield (f"one-line:{ids}", [f], [("a.txt", [fp.raw for fp in s])])
+        if any(fp.pid in ("majmin", "maj", "copyright") for fp in s) and len(s) == 1:
+            # a file whose only pattern is partial, and whose content LAGS behind current_version (stale file / tag ahead):
+            # patterns match any version, so the real run brings it up to date - the dry diff must show exactly that
+            f = projgen.build_file("a.txt", s, "own-lines", "ascii", "LF", True)
+            yield (f"lagging:{ids}", [f], [("a.txt", [fp.raw for fp in s])])
         f1 = projgen.build_file("z/last.txt", s, ("repeat", 2), "ascii", "LF", True)
         f2 = projgen.build_file("a.txt", s[:1], "own-lines", "tab", "CR", True)
         yield (f"two-files:{ids}", [f1, f2], [("z/last.txt", [fp.raw for fp in s]), ("a.txt", [fp.raw for fp in s[:1]])])
@@ -186,7 +192,13 @@ def run_chunk(chunk):
                         tree = {fmt: pt.config_text(fmt, pat.text, old_text, entries, extra=extra).encode("utf-8")}
                         seps = {fmt: "\n"}
                         for f in files:
-                            tree[f.name] = f.render_old(old).encode("utf-8")
+                            src_state = old
+                            if lid.startswith("lagging"):
+                                src_state = dict(old)
+                                for k in ("major", "year"):
+                                    if k in src_state:
+                                        src_state[k] -= 1
+                            tree[f.name] = f.render_old(src_state).encode("utf-8")
                             seps[f.name] = f.seps[0] if f.seps else "\n"
                         case = {"pattern": pat.text, "states": label, "format": fmt, "layout": lid, "flags": flags, "template": tname}
                         dry_then_real(st, tree, seps, flags, case, f"{fname}:{tname}")
